@@ -52,11 +52,19 @@ func zzCatalogue(shape int) []Input {
 		return []Input{zzIn("string[2]", true)}
 	case 17:
 		return []Input{zzIn("bytes", false), zzIn("uint256[3]", false), zzIn("bytes", true)}
+	case 18: // fixed array of tuples mixing static and dynamic members: dynamic although its inline size is not 0
+		return []Input{zzIn("tuple[2]", false, zzIn("uint256", true), zzIn("string", true))}
+	case 19: // the same, unselected, followed by a selected static field (read from the right slot?)
+		return []Input{zzIn("tuple[2]", false, zzIn("uint256", false), zzIn("string", false)), zzIn("uint256", true)}
+	case 20: // tuple holding a fixed static array and a dynamic leaf
+		return []Input{zzIn("tuple", false, zzIn("uint256[2]", true), zzIn("bytes", true)), zzIn("uint256", true)}
+	case 21: // dynamic array of fixed arrays of a mixed tuple
+		return []Input{zzIn("tuple[1][]", false, zzIn("bytes", true), zzIn("uint256", true))}
 	}
 	return nil
 }
 
-const zzCatalogueSize = 18
+const zzCatalogueSize = 22
 
 func wpgTable(name string, cols ...string) wpg.Table {
 	t := wpg.Table{Name: name}
